@@ -110,11 +110,11 @@ namespace ratio
     CORE_EXPORT arith_expr div(const std::vector<arith_expr> &exprs) noexcept;
     CORE_EXPORT arith_expr minus(arith_expr ex) noexcept;
 
-    CORE_EXPORT bool_expr lt(arith_expr left, arith_expr right) noexcept;
-    CORE_EXPORT bool_expr leq(arith_expr left, arith_expr right) noexcept;
-    CORE_EXPORT bool_expr eq(arith_expr left, arith_expr right) noexcept;
-    CORE_EXPORT bool_expr geq(arith_expr left, arith_expr right) noexcept;
-    CORE_EXPORT bool_expr gt(arith_expr left, arith_expr right) noexcept;
+    CORE_EXPORT bool_expr lt(arith_expr left, arith_expr right);
+    CORE_EXPORT bool_expr leq(arith_expr left, arith_expr right);
+    CORE_EXPORT bool_expr eq(arith_expr left, arith_expr right);
+    CORE_EXPORT bool_expr geq(arith_expr left, arith_expr right);
+    CORE_EXPORT bool_expr gt(arith_expr left, arith_expr right);
 
     CORE_EXPORT bool_expr eq(expr i0, expr i1) noexcept;
 
